@@ -47,10 +47,11 @@ def r_at_most(ck: Checker) -> None:
     func = ck.func(f"{CLS}._calc_at_most_on_rule")
     it = ck.interp(func)
     rule = func.params()[1]
-    app_most = [c for c in attr_calls(func, "append") if unparse(c.func.value) == "ret[0]"]  # type: ignore[attr-defined]
-    app_least = [c for c in attr_calls(func, "append") if unparse(c.func.value) == "ret[1]"]  # type: ignore[attr-defined]
+    app_most = [c for c in calls_in(func, lambda c: isinstance(c.func, ast.Attribute) and c.func.attr in ("append", "extend")) if unparse(c.func.value) == "ret[0]"]  # type: ignore[attr-defined]
+    app_least = [c for c in calls_in(func, lambda c: isinstance(c.func, ast.Attribute) and c.func.attr in ("append", "extend")) if unparse(c.func.value) == "ret[1]"]  # type: ignore[attr-defined]
     ck.need(len(app_most) == 1 and len(app_least) == 1, "_calc_at_most_on_rule records at-most and at-least results at one site each")
     site = app_most[0]
+    ck.guard("H5 (at least) exactly one (predicate, projected positions) in the head", func, app_least[0], "len(preds) == 1", "")
     head = f"{rule}.head"
     ck.guard("H3 head is a choice / #count / #sum head aggregate", func, site,
              f"{head}.ast_type == ASTType.Aggregate or ({head}.ast_type == ASTType.HeadAggregate and {head}.function in (AggregateFunction.Count, AggregateFunction.Sum))",
@@ -356,7 +357,7 @@ def r_execute(ck: Checker) -> None:
 RULES = [
     Rule("C13.H.at-most", P + ("C02",), r_at_most),
     Rule("C13.TABLE.agg-analytics", P + ("C15", "C12"), r_agg_analytics),
-    Rule("C13.G.element-passes", PG, r_element_passes),
+    Rule("C13.G.element-passes", PG + ("C06",), r_element_passes),
     Rule("C13.get-trigger", PG + ("C03",), r_get_trigger),
     Rule("C13.G.get-var", PG, r_get_var),
     Rule("C13.replace-optimize", PG, r_replace_optimize),
